@@ -7,14 +7,16 @@ import mir
 from storemodel import LOCKING_METHODS
 
 LEVEL_TEXT = (
-    "Static lock-discipline check over every body of the crate (built MIR, resolved callees): R1 no call that can "
-    "acquire a DashMap shard lock (transitively, through dyn Cache/Timer to all in-crate impls) is made while a local "
-    "that may hold a shard lock is live (forward may-analysis with move/drop/StorageDead kills and discriminant "
-    "refinement); R2 closures that DashMap or a guard-carrying iterator adaptor runs under a lock, and every "
-    "CachePredicate handed to Cache::remove_if, are lock-free; R3 no guard is live at a Yield (await) of a coroutine, no "
-    "coroutine witness or struct field has a lock-carrying type; R4 nothing reachable from the async connection/accept "
-    "code calls a blocking primitive. Each zero-count rule is shown able to fire on /verif/fixtures (compiled by the same "
-    "driver). Not decided: termination of the eviction sweep under concurrent writers (livelock), fairness."
+    'Static lock-discipline check over every body of the crate (built MIR, resolved callees): R1 no call that can '
+    'acquire a DashMap shard lock (transitively, through dyn Cache/Timer to all in-crate impls) is made while a local '
+    'that may hold a shard lock is live (forward may-analysis with move/drop/StorageDead kills and discriminant '
+    'refinement); R2 closures that DashMap or a guard-carrying iterator adaptor runs under a lock, and every '
+    'CachePredicate handed to Cache::remove_if, are lock-free; R3 no guard is live at a Yield (await) of a coroutine, '
+    'no coroutine witness or struct field has a lock-carrying type; R4 nothing reachable from the async '
+    'connection/accept code calls a blocking primitive; R5 the eviction sweep re-reads the store size in every round '
+    'and an exit of the loop depends on it (another connection can empty the store at any time). Each zero-count rule '
+    'is shown able to fire on /verif/fixtures (compiled by the same driver). Not decided: termination of the eviction '
+    'sweep under concurrent writers (livelock), fairness.'
 )
 ASSUMPTIONS = [
     "DashMap 5.5.3 locking table (storemodel.LOCKING_METHODS): exactly these methods take shard locks; DashMap documents that calling them while holding a reference into the map may deadlock",
